@@ -120,6 +120,7 @@ type FuncSpec struct {
 	ExtraLoops    map[string]*LoopSpec // "callee.K" -> invariants added to loop K of an inlined callee
 	Captures      []Param              // for closures: names bound to free variables, positional
 	CallPre       map[string][]Clause  // extra assertions at every call of a named callee inside this unit
+	CallPost      map[string][]Clause  // assertions checked, then assumed, right after every call of a named callee inside this unit (cut points inside a loop body)
 }
 
 func (f *FuncSpec) Key() string {
@@ -679,7 +680,7 @@ func readSpecLines(path string) ([]string, []int, error) {
 var clauseKeywords = map[string]bool{
 	"pure": true, "ghost": true, "func": true, "extern": true, "requires": true, "ensures": true,
 	"modifies": true, "loop": true, "let": true, "replay": true, "trusted": true, "lemma": true,
-	"guarded": true, "captures": true, "noeffect": true, "hint": true, "abstract": true, "callpre": true, "inlined": true, "open": true, "inline": true, "given": true, "dyntype": true,
+	"guarded": true, "captures": true, "noeffect": true, "hint": true, "abstract": true, "callpre": true, "callpost": true, "inlined": true, "open": true, "inline": true, "given": true, "dyntype": true,
 }
 
 // joinClauses merges continuation lines (lines whose first word is not a keyword).
@@ -863,6 +864,23 @@ func (db *SpecDB) LoadFile(path, pkg string) error {
 				cur.CallPre = map[string][]Clause{}
 			}
 			cur.CallPre[callee] = append(cur.CallPre[callee], Clause{label, e, src})
+		case "callpost":
+			// callpost CALLEE label: expr  -- checked, then assumed, right after each call of CALLEE (by contract) in this unit:
+			// an intermediate assertion, so that a body with several calls is proved call by call; the expression is over the
+			// caller's variables in the state after the call
+			if cur == nil {
+				return fail(i, "callpost outside func")
+			}
+			callee, r2 := splitWord(rest)
+			label, src := splitLabel(r2)
+			e, err := ParseExpr(src)
+			if err != nil {
+				return fail(i, "%v", err)
+			}
+			if cur.CallPost == nil {
+				cur.CallPost = map[string][]Clause{}
+			}
+			cur.CallPost[callee] = append(cur.CallPost[callee], Clause{label, e, src})
 		case "inlined":
 			if cur != nil {
 				cur.InlineOnly = true
